@@ -11,8 +11,8 @@ ID = 'C07'
 LEVEL = 'model_checking'
 RULE = ('(A) content: every combination of 0..3 keys from 12 key texts (quotes, unicode, separators, JSON metacharacters, newline, '
         'input/output-key shaped, keys sorting before "_metadata") with values rotating through the value universe, incl. one object shared '
-        'between two keys and between data and metadata, x 6 metadata kinds, on 5 cassette configurations (memory, file, S3 with key prefix '
-        "'', 'p', 'p/q' on a fake bucket); (B) histories: every sequence up to the depth bound over save / re-save / get / get-metadata of 3 "
+        'between two keys and between data and metadata, x 6 metadata kinds, on 6 cassette configurations (memory, file, S3 with key prefix '
+        "'', 'p', 'p/q' on a fake bucket, S3 with a keep-everything sampling calculator); (A') a save that the serializer refuses (value in data / in metadata, first or after a good save): the id then counts as never saved; (B) histories: every sequence up to the depth bound over save / re-save / get / get-metadata of 3 "
         'recordings in 2 categories + fetches of never-saved ids, each fetch compared with a reference store (dict copied at save time); '
         'states = distinct reference-store states. Non-trivial = at least one save and one fetch.')
 ASSUMPTIONS = ['contents limited to the measured faithful domain of jsonpickle 0.9.3 (both document forms the cassettes use are measured on the third-party library alone)',
@@ -22,7 +22,7 @@ KEYTEXTS = ['k', 'a"b', u'\xe9✓', 'x: y, z=', '{"j":[1]}', 'a/b', 'line\nbreak
             'A key', '0', 'json://1']
 VALCYCLE = ['vlst', 'vtup', 'vdct', 'vs', 'vb', 'v0', 'vset', 'vn', 'vq', 'vu', 'vf', 'vt', 'vobj']
 METAS = ['none', 'plain', 'tuple', 'class', 'shared', 'oddkeys']
-CONFIGS = [('mem', None), ('file', None), ('s3', ''), ('s3', 'p'), ('s3', 'p/q')]
+CONFIGS = [('mem', None), ('file', None), ('s3', ''), ('s3', 'p'), ('s3', 'p/q'), ('s3-keep-all-calculator', 'c')]
 
 
 def bounds(tier):
@@ -38,6 +38,9 @@ def gen_cases(tier, seed):
                     if n == 3 and tier == 'quick' and (sum(combo) + mi) % 3:
                         continue
                     yield {'k': 'content', 'cfg': ci, 'keys': list(combo), 'meta': meta, 'rot': (sum(combo) + mi) % len(VALCYCLE)}
+        for when in ('first', 'after-good-save'):
+            for pos in ('data', 'metadata'):
+                yield {'k': 'unsavable', 'cfg': ci, 'when': when, 'pos': pos}
         depth = 3 if tier == 'quick' else 4
         letters = HLETTERS
         for n in range(1, depth + 1):
@@ -49,7 +52,7 @@ def gen_cases(tier, seed):
                     yield {'k': 'hist', 'cfg': ci, 'h': list(h), 'open_all': True}          # all recordings are created before any is saved
                 if n >= 2 and any(letters[i][0] in ('save', 'resave') for i in h[:-1]):
                     yield {'k': 'hist', 'cfg': ci, 'h': list(h), 'same_obj': True}          # re-saves reuse the recording OBJECT; every save also goes to a second cassette
-                if n >= 2 and any(letters[i][0] in ('save', 'resave') for i in h[:-1]) and ci in (1, 3):
+                if n >= 2 and any(letters[i][0] in ('save', 'resave') for i in h[:-1]) and ci in (1, 3, 5):
                     yield {'k': 'hist', 'cfg': ci, 'h': list(h), 'long_cat': True}          # categories with very long names
 
 
@@ -79,6 +82,8 @@ def faithful_forms(rid, data, meta):
 
 def mkbox(ci):
     kind, prefix = CONFIGS[ci]
+    if kind == 's3-keep-all-calculator':   # storage-level sampling switched on, with a calculator that keeps everything
+        return cassettes.Box('s3', prefix=prefix, sampling_calculator=lambda category, size, recording: 1)
     return cassettes.Box(kind, prefix=prefix) if kind == 's3' else cassettes.Box(kind)
 
 
@@ -119,7 +124,7 @@ def compare(viols, tag, cfg, rec, rid, data, meta, fetched_meta):
 def run_case(case):
     box = mkbox(case['cfg'])
     try:
-        return _content(case, box) if case['k'] == 'content' else _hist(case, box)
+        return _content(case, box) if case['k'] == 'content' else _unsavable(case, box) if case['k'] == 'unsavable' else _hist(case, box)
     finally:
         box.close()
 
@@ -147,6 +152,48 @@ def _content(case, box):
     for v in viols:
         uniq.setdefault(v['sig'], v)
     return dict(viol=list(uniq.values()), obs=repr((case['cfg'], sorted(map(repr, canon(pristine_data))))), nontrivial=len(data) > 0, transitions=3)
+
+
+def _unsavable(case, box):
+    """A save that fails inside the cassette (the serializer refuses a value): the id was not saved, so fetching it says so."""
+    from playback.exceptions import NoSuchRecording
+    c = box.cassette
+    viols = []
+    good = None
+    if case['when'] == 'after-good-save':
+        good = c.create_new_recording('Op')
+        good.set_data('k', [1, 2])
+        good.add_metadata({'m': 1})
+        c.save_recording(good)
+    r = c.create_new_recording('Op')
+    r.set_data('k', P.Unencodable() if case['pos'] == 'data' else 1)
+    r.add_metadata({'m': P.Unencodable() if case['pos'] == 'metadata' else 2})
+    try:
+        c.save_recording(r)
+        refused = False
+    except Exception:
+        refused = True
+    if refused:
+        for f, how in ((c, 'same cassette object'), (box.fresh(), 'another cassette object')):
+            for name, call in (('get_recording', f.get_recording), ('get_recording_metadata', f.get_recording_metadata)):
+                try:
+                    got = call(r.id)
+                    viols.append(viol('failed-save:%s-returned' % name, 'the save of this id failed, fetching it (%s) returned something (%s)' % (how, CONFIGS[case['cfg']],), 'NoSuchRecording', repr(got)[:200]))
+                except NoSuchRecording:
+                    pass
+                except Exception as e:
+                    viols.append(viol('failed-save:%s-raised-%s' % (name, type(e).__name__), 'the save of this id failed, fetching it (%s) must signal NoSuchRecording (%s)' % (how, CONFIGS[case['cfg']],),
+                                      'NoSuchRecording', repr(e)[:200]))
+    if good is not None:   # ... and the recording saved before it is still whole
+        try:
+            f = box.fresh()
+            compare(viols, 'failed-save:neighbour', case['cfg'], f.get_recording(good.id), good.id, {'k': [1, 2]}, {'m': 1}, f.get_recording_metadata(good.id))
+        except Exception as e:
+            viols.append(viol('failed-save:neighbour-raised-%s' % type(e).__name__, 'a recording saved before the failing save can no longer be fetched', 'Recording', repr(e)[:200]))
+    uniq = {}
+    for v in viols:
+        uniq.setdefault(v['sig'], v)
+    return dict(viol=list(uniq.values()), obs=repr((case['cfg'], case['when'], case['pos'], refused)), nontrivial=refused, transitions=3, extra={'saves_refused_by_serializer': int(refused)})
 
 
 def _hist_content(i, version):
@@ -193,20 +240,23 @@ def _hist(case, box):
                 from playback.recordings.memory.memory_recording import MemoryRecording
                 r = MemoryRecording(ids[i])
             data, meta = _hist_content(i, version[i])
-            if i in kept:
-                for k, v in data.items():
-                    r[k] = v
-                c.save_recording(r)
-                ref[i] = (_hist_content(i, version[i])[0], ref[i][1])   # metadata of a saved recording object can no longer be added to
-            else:
-                for k, v in data.items():
-                    r.set_data(k, v)
-                r.add_metadata(meta)
-                c.save_recording(r)
-                ref[i] = _hist_content(i, version[i])
-            if mirror is not None:
-                kept[i] = r
-                mirror.cassette.save_recording(r)
+            try:
+                if i in kept:
+                    for k, v in data.items():
+                        r[k] = v
+                    c.save_recording(r)
+                    ref[i] = (_hist_content(i, version[i])[0], ref[i][1])   # metadata of a saved recording object can no longer be added to
+                else:
+                    for k, v in data.items():
+                        r.set_data(k, v)
+                    r.add_metadata(meta)
+                    c.save_recording(r)
+                    ref[i] = _hist_content(i, version[i])
+                if mirror is not None:
+                    kept[i] = r
+                    mirror.cassette.save_recording(r)
+            except Exception as e:   # the code under test refused a save inside the domain: a verdict, not a harness problem
+                viols.append(viol('hist:save-raised:%s' % type(e).__name__, 'saving a recording raised after history %s (%s)' % ([HLETTERS[x] for x in case['h'][:step]], CONFIGS[case['cfg']]), 'saved', repr(e)[:200]))
         elif op in ('get', 'meta'):
             i = arg
             if i not in ids:
